@@ -18,8 +18,12 @@ pub fn run_confs(ctx: &Ctx, stream: &str, n_conf: u32, cases_per_conf: u32, frag
     let strat = conf_strategy(frag_bias);
     let mut k = 0u64;
     while (confs.len() as u32) < n_conf + fixed.len() as u32 {
-        let c = draw(&strat, mix_seed(ctx.seed, &ctx.id, stream, 1000 + k));
+        let mut c = draw(&strat, mix_seed(ctx.seed, &ctx.id, stream, 1000 + k));
         k += 1;
+        if ctx.id == "C11" {
+            // a capped chunk index reduces dedup by design; C11 is stated for the shipped cap
+            c.chunk_index_max = 64 << 20;
+        }
         if !confs.contains(&c) {
             confs.push(c);
         }
